@@ -399,6 +399,17 @@ example : covered exSpec exItems = true ∧ covered exSpec [.int 5, .int 6] = tr
 example : checkC16 [exSpec, .agg 0 .clsLast] [exItems, [.int 5, .int 6]] [(0, 0), (1, 1), (0, 1), (0, 0)]
     (observeHistory [exSpec, .agg 0 .clsLast] [exItems, [.int 5, .int 6]] [(0, 0), (1, 1), (0, 1), (0, 0)]) = true := by
   decide
+-- a Group as the SUBSPEC of a Fold-family leaf (`Group({len: Merge(Group({T % 2: Sum()}))})`,
+-- `Group(Sum(Group(Count())))`): the inner Group is a fresh grouping of each item — its own Sum / Count
+-- leaves aggregate (Group.glomit resets the CUR_AGG tripwire the outer Fold set) — the runs are covered
+example : let inner : GSpec := .dict 10 11 (.mod 2) (.agg 12 (.sum .ident))
+    let g : GSpec := .dict 0 1 .len (.foldG 2 .merge 1 inner)
+    let batches : List V := [.list [.int 1, .int 2, .int 3], .list [.int 4, .int 5], .list [.int 6, .int 8, .int 10]]
+    covered g batches = true ∧ wfRun g batches = true ∧
+    (valOfTop g batches == .dict [(.int 3, .dict [(.int 1, .int 4), (.int 0, .int 24)]),
+                                  (.int 2, .dict [(.int 0, .int 4), (.int 1, .int 5)])]) = true ∧
+    covered (.foldG 2 .sum 1 (.agg 12 .count)) batches = true ∧
+    (valOfTop (.foldG 2 .sum 1 (.agg 12 .count)) batches == .int 8) = true := by decide
 -- a top-level First needs items that are not the sentinels themselves: Group(First()) on [STOP] is None
 example : (observe (groupEval (.agg 0 .first) [.stop]) == .ok .none) = true ∧
     wfRun (.agg 0 .first) [.stop] = false := by decide
